@@ -205,8 +205,9 @@ def bve(x, w):
     if not isinstance(x, int): raise Unsupported(f'bve of {type(x).__name__} {x!r}')
     return z3.BitVecVal(x, w)
 def bvsym(name, w): return BV(z3.BitVec(name, w), w)
+SIMPLIFY = True       # drivers that push one symbolic value through very long arithmetic chains (e.g. mt19937 seeding) switch the per-operation simplification off
 def mkbv(e, w):
-    e = z3.simplify(e)
+    if SIMPLIFY: e = z3.simplify(e)
     if z3.is_bv_value(e): return e.as_long()
     return BV(e, w)
 def mksb(e):
